@@ -110,6 +110,7 @@ def execute(h):
     import decimal
     decimal.getcontext().prec = cfg.get('decimal_prec', 28)
     model = decl.RefDir()
+    model.noref_scaled = True
     env = decl.Env()
     if cfg['variant'] == 'predefined':
         decl.seed_catalogue(model, env)
@@ -360,6 +361,44 @@ def execute(h):
                     violate('scale', 'between_units', step, frm=s1, to=s2,
                             expected=str(amount * f1 / f2),
                             observed=str(got))
+
+        # base types without reference unit: units built on the same unit
+        # convert by their scales and are equal iff the scales are; units
+        # built on different units do not convert (no converter is
+        # registered in these worlds) and are never equal
+        for tn in model.order:
+            mt = model.types[tn]
+            if mt['ref'] is not None or not mt['base'] or mt['money'] or \
+                    mt['catalogue'] or not any(
+                        model.units[s]['kind'] == 'scaled'
+                        for s in mt['units']):
+                continue
+            us = mt['units']
+            pairs_ = list(zip(us, us[1:])) + [(us[-1], us[0])]
+            for s1, s2 in pairs_:
+                if s1 == s2:
+                    continue
+                m1, m2 = model.units[s1], model.units[s2]
+                u1, u2 = env.units[s1], env.units[s2]
+                same_root = m1['bvec'] == m2['bvec']
+                bump(probes, 'noref_pair_same_root' if same_root
+                     else 'noref_pair_other_root')
+                try:
+                    got = _frac((amount * u1).convert(u2).amount)
+                except Exception as e:      # noqa
+                    got = type(e).__name__
+                exp = amount * m1['num'] / m2['num'] if same_root \
+                    else 'UnitConversionError'
+                if got != exp:
+                    violate('scale', 'no_reference_unit', step, frm=s1,
+                            to=s2, expected=str(exp), observed=str(got))
+                try:
+                    eq = (u1 == u2)
+                except Exception as e:      # noqa
+                    eq = type(e).__name__
+                if eq != (same_root and m1['num'] == m2['num']):
+                    violate('directory', 'unit_equality', step, a=s1, b=s2,
+                            observed=str(eq))
 
     try:
         sweep(-1, 0)
